@@ -260,8 +260,12 @@ def classify(w: Write, ty: Typer, model: NodeModel, fn: ast.AST) -> T.Tuple[str,
         raise Undecided(f'setattr/delattr in a formatter pass: {short(w.stmt)}')
     if w.obj is None:
         # mutation of a plain local: must be an object created in this function, not an alias of a node field
+        def fresh(v: ast.AST) -> bool:
+            if isinstance(v, ast.IfExp):
+                return fresh(v.body) and fresh(v.orelse)
+            return isinstance(v, (ast.Call, ast.List, ast.ListComp, ast.Dict, ast.Set, ast.Constant, ast.BinOp, ast.JoinedStr, ast.Tuple, ast.DictComp, ast.SetComp))
         for kind, v in ty.defs.get(w.attr, []):
-            if kind == 'val' and isinstance(v, (ast.Call, ast.List, ast.ListComp, ast.Dict, ast.Set, ast.Constant, ast.BinOp, ast.JoinedStr)):
+            if kind == 'ann' or (kind == 'val' and fresh(v)):
                 continue
             raise Undecided(f'mutation through local `{w.attr}` that may alias a node field: {short(w.stmt)}')
         if w.attr in ty.params:
@@ -381,6 +385,12 @@ def creach(ctx: RuleCtx, p: Pass, fn: ast.FunctionDef, site: T.Optional[ast.stmt
     in the caller) is reachable under a hypothesis only if some call site of the helper is reachable under the translated hypothesis."""
     from .c16_sym import bind_args, stmt_of
     rs = reach(fn, site, hyp, **kw)
+    if rs and site is not None:
+        wrappers = [attr_chain(d.func if isinstance(d, ast.Call) else d) or short(d) for d in fn.decorator_list]
+        opaque_w = [w for w in wrappers if w.split('.')[-1] not in ('staticmethod', 'classmethod', 'property', 'wraps', 'override', 'final', 'lru_cache', 'cache')]
+        if opaque_w:
+            # a decorator may factor out the guard (`@_only_when(...)`): the body alone does not show when it runs
+            raise Undecided(f'{p.name}.{fn.name} is wrapped by `@{opaque_w[0]}`, which may hold the guard of `{short(site, 60)}`')
     if not rs or depth >= 2 or hyp.atoms is not None:
         return rs
     if fn.name.startswith('visit_') or fn.name in ('enter_node', 'exit_node', '__init__', 'visit_default_func'):
@@ -864,8 +874,9 @@ def _mover_args(p: Pass, c: ast.Call, movers: T.Dict[str, T.Tuple[int, int]]) ->
     if fn is None:
         return None
     recv = attr_chain(f.value)
+    static = 'staticmethod' in [attr_chain(d) for d in fn.decorator_list]
     if recv == 'self':
-        m = bind_args(fn, c, True)
+        m = bind_args(fn, c, not static)
     elif recv == p.name:
         m = bind_args(fn, c, False)
     else:
@@ -1025,12 +1036,45 @@ def _rebuild_ok(ctx: RuleCtx, p: Pass, qn: str, fn: ast.FunctionDef, site: ast.s
                     if all(isinstance(c, ast.Name) and c.id == tv.id for c in g.ifs):
                         return None
                     raise Undecided(f'{qn}: the comprehension that rebuilds {loc} filters the lines: {short(comp)}')
-    # accumulator: LOC = ACC [+ ...] where ACC is a local that the loop over var appends to
+    # accumulator: LOC = ACC [+ ...] where ACC is a local that the loop over var appends to - a string (`ACC += x`) or a list of
+    # parts (`ACC.append(x)`) joined later; intermediate locals (`text = ''.join(parts)`, `text += tail`) are followed
+    def grows(n: ast.AST, name: str) -> bool:
+        if isinstance(n, ast.AugAssign) and isinstance(n.target, ast.Name) and n.target.id == name:
+            return True
+        return isinstance(n, ast.Call) and isinstance(n.func, ast.Attribute) and n.func.attr in ('append', 'extend', 'insert') \
+            and isinstance(n.func.value, ast.Name) and n.func.value.id == name
+    for_var = [n for n in ast.walk(fn) if isinstance(n, ast.For) and any(isinstance(x, ast.Name) and x.id == var for x in ast.walk(n.iter))]
     tgt = loc
-    if rhs is not None:
-        for l in _add_leaves(rhs):
-            if isinstance(l, ast.Name) and any(isinstance(n, ast.AugAssign) and isinstance(n.target, ast.Name) and n.target.id == l.id for n in ast.walk(fn)):
+    chain: T.List[str] = []
+    cur: T.Optional[ast.AST] = rhs
+    for _ in range(4):
+        if cur is None:
+            break
+        nxt: T.Optional[ast.AST] = None
+        cands: T.List[ast.AST] = []
+        for l in _add_leaves(cur):
+            if isinstance(l, ast.Call) and isinstance(l.func, ast.Attribute) and l.func.attr == 'join' and isinstance(l.func.value, ast.Constant) and len(l.args) == 1:
+                cands.append(l.args[0])
+            else:
+                cands.append(l)
+        for l in cands:
+            if not isinstance(l, ast.Name) or l.id in chain:
+                continue
+            if any(grows(n, l.id) for lp in for_var for n in ast.walk(lp)):
                 tgt = l.id
+                chain.append(l.id)
+                break
+            defs = [n for n in ast.walk(fn) if isinstance(n, (ast.Assign, ast.AnnAssign)) and n.value is not None
+                    and any(isinstance(t, ast.Name) and t.id == l.id for t in (n.targets if isinstance(n, ast.Assign) else [n.target]))]
+            if len(defs) == 1:
+                chain.append(l.id)
+                nxt = defs[0].value
+                break
+        if tgt != loc or nxt is None:
+            break
+        cur = nxt
+    if tgt == loc:
+        chain = []
     acc = tgt != loc
     parents = {}
     for n in ast.walk(fn):
@@ -1081,9 +1125,12 @@ def _rebuild_ok(ctx: RuleCtx, p: Pass, qn: str, fn: ast.FunctionDef, site: ast.s
             st = call
             while st is not None and not isinstance(st, ast.stmt):
                 st = parents.get(id(st))
-            if isinstance(st, ast.Assign) and len(st.targets) == 1 and norm(st.targets[0]) in (loc, tgt) and isinstance(call, ast.Call) \
-                    and len(call.args) == 1 and isinstance(call.args[0], ast.Constant) and call.args[0].value == 0:
-                continue                               # LOC = var.pop(0): the first line stays in LOC
+            tg = st.targets[0] if isinstance(st, ast.Assign) and len(st.targets) == 1 else (st.target if isinstance(st, ast.AnnAssign) else None)
+            first = isinstance(call, ast.Call) and len(call.args) == 1 and isinstance(call.args[0], ast.Constant) and call.args[0].value == 0
+            if tg is not None and first and norm(tg) in [loc, tgt] + chain:
+                continue                               # LOC = var.pop(0) / parts = [var.pop(0)]: the first line stays in what is stored
+            if tg is not None and isinstance(tg, ast.Name) and norm(tg) not in [loc, tgt] + chain:
+                raise Undecided(f'{qn}: `{short(st)}` moves an element of `{var}` into `{norm(tg)}`, which the rule does not follow')
             return f'`{short(st)}` removes an element of `{var}` without keeping it in {loc}'
         # plain reads (element, slice, comparison, membership, a pure builtin) cannot lose a line
         if isinstance(par, ast.Subscript) and par.value is u and isinstance(par.ctx, ast.Load):
@@ -1098,7 +1145,8 @@ def _rebuild_ok(ctx: RuleCtx, p: Pass, qn: str, fn: ast.FunctionDef, site: ast.s
         # loops that only read the lines (build a side table) are not the re-appending loop
         def appends(lp: ast.For) -> bool:
             return any(isinstance(n, ast.AugAssign) and norm(n.target) == tgt for n in ast.walk(lp)) or \
-                any(isinstance(n, ast.Assign) and any(norm(t) == tgt for t in n.targets) for n in ast.walk(lp))
+                any(isinstance(n, ast.Assign) and any(norm(t) == tgt for t in n.targets) for n in ast.walk(lp)) or \
+                any(grows(n, tgt) for n in ast.walk(lp))
         loops = [lp for lp in loops if appends(lp)]
     if len(loops) != 1:
         return f'{len(loops)} loops over `{var}` append to {tgt} (expected exactly one that re-appends every line)'
@@ -1113,8 +1161,8 @@ def _rebuild_ok(ctx: RuleCtx, p: Pass, qn: str, fn: ast.FunctionDef, site: ast.s
             return f'`{tgt}` is stored into {loc} on a path that did not run the loop over `{var}`'
         for n in cfg.nodes:
             a = n.ast
-            if n.kind == 'stmt' and isinstance(a, ast.Assign) and any(isinstance(t, ast.Name) and t.id == tgt for t in a.targets) \
-                    and not any(isinstance(l, ast.Name) and l.id == tgt for l in _add_leaves(a.value)):
+            if n.kind == 'stmt' and isinstance(a, ast.Assign) and any(isinstance(t, ast.Name) and t.id in chain for t in a.targets) \
+                    and not any(isinstance(x, ast.Name) and x.id in chain for x in ast.walk(a.value)):
                 if any(cfg.can_reach(ln, n) for ln in l_nodes) and any(cfg.can_reach(n, sn) or n is sn for sn in s_nodes) \
                         and not any(a is x for x in ast.walk(loop)):
                     return f'`{short(a)}` overwrites the accumulated text after the loop over `{var}`'
@@ -1140,6 +1188,8 @@ def _rebuild_ok(ctx: RuleCtx, p: Pass, qn: str, fn: ast.FunctionDef, site: ast.s
                     raise Undecided(f'{qn}: the line variable is rebound by `{short(st)}`')
             if isinstance(st, ast.AugAssign) and isinstance(st.op, ast.Add) and norm(st.target) == tgt and any(isinstance(x, ast.Name) and x.id == lv.id for x in ast.walk(st.value)):
                 appended = True
+            if isinstance(st, ast.Expr) and grows(st.value, tgt) and any(isinstance(x, ast.Name) and x.id == lv.id for a in st.value.args for x in ast.walk(a)):  # type: ignore[attr-defined]
+                appended = True
             if isinstance(st, ast.Assign) and len(st.targets) == 1 and norm(st.targets[0]) == tgt:
                 lv_in = any(isinstance(x, ast.Name) and x.id == lv.id for l in _add_leaves(st.value) for x in ast.walk(l))
                 if any(norm(l) == tgt for l in _add_leaves(st.value)) and lv_in:
@@ -1154,21 +1204,11 @@ def _rebuild_ok(ctx: RuleCtx, p: Pass, qn: str, fn: ast.FunctionDef, site: ast.s
     return None
 
 
-def _dedent_like(p: Pass, name: str) -> str:
-    """m(self, v) returns v, or v without one trailing copy of K (config indentation), in any statement spelling
-    (`v[:-len(K)] if TEST else v`, or v.removesuffix(K)).  -> 'ok' | 'empty-unit' (for K == '' the test holds and
-    v[:-len(K)] is v[:0]: everything is cut) | '' (not this shape).  TEST is judged as an atom in three worlds."""
-    from .c16_sym import helper_expression, Evaluator, truth
-    fn = _methods(p).get(name)
-    if fn is None:
-        return ''
-    ps = [a.arg for a in fn.args.args if a.arg != 'self']
-    if len(ps) != 1:
-        return ''
-    v = ps[0]
-    e = helper_expression(fn)
-    if e is None:
-        return ''
+def _suffix_removal(e: ast.AST, v: str) -> str:
+    """Is e `v` without one trailing copy of K (config indentation): `v[:-len(K)] if TEST else v` or v.removesuffix(K)?
+    -> 'ok' | 'empty-unit' (for K == '' the test holds and v[:-len(K)] is v[:0]: everything is cut) | '' (not this shape).
+    TEST is judged as an atom in three worlds."""
+    from .c16_sym import Evaluator, truth
     if isinstance(e, ast.Call) and isinstance(e.func, ast.Attribute) and e.func.attr == 'removesuffix' and norm(e.func.value) == v and len(e.args) == 1:
         return 'ok' if '.config.indent' in norm(e.args[0]) else ''
     if not isinstance(e, ast.IfExp):
@@ -1259,8 +1299,9 @@ def _transform_ok(ctx: RuleCtx, p: Pass, qn: str, call: ast.Call, loc: str, bind
         call = T.cast(ast.Call, subst(call, binds))
         loc = norm(subst(ast.parse(loc, mode='eval').body, binds))
     cn = call_name(call) or ''
-    if cn.startswith('self.') and len(call.args) == 1 and norm(call.args[0]) == loc:
-        d = _dedent_like(p, cn[5:])
+    inl = _Inline(ctx, p).resolve(call)          # a helper of the class or of the module, arguments bound by signature
+    if inl is not None:
+        d = _suffix_removal(inl, loc)
         if d == 'ok':
             return f'{cn} only removes one trailing indentation unit (config indent_by)'
         if d == 'empty-unit':
@@ -1590,6 +1631,8 @@ def _write_sinks(mod: Module, scope: ast.AST) -> T.List[T.Tuple[ast.Call, ast.AS
             continue
         if isinstance(c.func, ast.Attribute) and c.func.attr == 'write' and len(c.args) == 1:
             out.append((c, c.args[0]))
+        elif isinstance(c.func, ast.Attribute) and c.func.attr == 'writelines' and len(c.args) == 1 and isinstance(c.args[0], (ast.List, ast.Tuple)):
+            out.extend((c, x) for x in c.args[0].elts)
         elif isinstance(c.func, ast.Name) and c.func.id == 'print' and any(k.arg == 'end' for k in c.keywords) and len(c.args) == 1:
             out.append((c, c.args[0]))
         elif isinstance(c.func, ast.Name) and mod.has_func(c.func.id):
